@@ -100,10 +100,9 @@ def handleESDQ (args impl : List String) : Option (String × String) :=
     pure (m, p)
   | _ => none
 
-def handle (cmd : String) (args impl : List String) : Option (String × String) :=
-  if cmd = "c09.es" then handleES args impl else
-  if cmd = "c09.esdq" then handleESDQ args impl else
-  if cmd ≠ "c09.trace" ∧ cmd ≠ "c09.overlap" then none else
+/-- replay + oracle of a RetriableBatcher/Router trace; independent of the command token (c09.trace, c09.overlap,
+    c09.stop, or the same family registered under another property's prefix) -/
+def handleTrace (args impl : List String) : Option (String × String) :=
   match args with
   | w :: cnt :: byt :: rt :: ret :: dqm :: dqw :: dqc :: _ => do
     let retentionMs ← nat? ret
@@ -126,5 +125,14 @@ def handle (cmd : String) (args impl : List String) : Option (String × String) 
       let p := if SpecC09.holds conf tks then "ok" else "fail"
       pure (m, p)
   | _ => none
+
+end FileD.DrvC09
+
+namespace FileD.DrvC09
+
+def handle (cmd : String) (args impl : List String) : Option (String × String) :=
+  if cmd = "c09.es" then handleES args impl else
+  if cmd = "c09.esdq" then handleESDQ args impl else
+  if cmd = "c09.trace" ∨ cmd = "c09.overlap" ∨ cmd = "c09.stop" then handleTrace args impl else none
 
 end FileD.DrvC09
